@@ -501,6 +501,29 @@ let judge_sched (which : string) g (obs : string) (pre : srv) (eui : n) : string
        if kind = "copies" && List.length data_downs > 1 then
          (if each_read_before_the_other_wrote then "bad:sched-copies-answered-twice" else "bad:sched-copy-answered-after-the-other-was-stored")
        else "ok"
+     | "C06" ->
+       (* each frame that leaves carries one queued message: its bytes, its port, its confirmation request *)
+       let queued = (dt_get pre.s_tab eui).ds_outbox in
+       let verdicts = List.map (fun raw ->
+           match ref_on_downlink e pre_row.d_nwkskey pre_row.d_appskey pre_row.d_addr raw with
+           | None -> if rejoined then "ok" else "bad:sched-downlink-verifies-under-no-device-key"
+           | Some ((((mt, _ackbit), _fc), port), plain) ->
+             if plain = [] then "ok"
+             else (match port with
+                 | Some p when List.exists (fun m -> m.m_data = plain && m.m_port = p && (int_of_n mt = 5) = m.m_ack) queued -> "ok"
+                 | Some p when List.exists (fun m -> m.m_port = p) queued -> "bad:sched-downlink-payload-is-not-the-queued-message-of-its-port"
+                 | _ -> "bad:sched-downlink-payload-is-not-a-queued-message")) data_downs in
+       (match List.filter (fun v -> v <> "ok") verdicts with v :: _ -> v | [] -> "ok")
+     | "C17" ->
+       (* a join-accept leaves with the five-second delay, a data frame with the one-second delay - whichever handler sends it *)
+       let wrong = List.exists (fun dstr -> match String.split_on_char ':' dstr with
+           | rawhex :: delay :: _ ->
+             (match bytes_of_hex rawhex with
+              | b0 :: _ -> let mt = int_of_n b0 / 32 in
+                if mt = 1 then delay <> "5" else if mt = 3 || mt = 5 then delay <> "1" else false
+              | [] -> false)
+           | _ -> true) ds in
+       if wrong then "bad:sched-rx1-delay-does-not-follow-the-frame-type" else "ok"
      | "C05" ->
        if List.length accepts > 1 then "bad:sched-devnonce-honoured-twice"
        else if List.length accepts = 1 then begin
@@ -515,3 +538,21 @@ let judge_sched (which : string) g (obs : string) (pre : srv) (eui : n) : string
        end
        else "ok"
      | _ -> "ok")
+
+
+(* two devices sharing an address, a confirmed uplink each inside one receive window: each is answered once, with
+   the ACK flag, by a frame that verifies under its own keys *)
+let judge_window2 (obs : string) (pre : srv) : string =
+  match split_obs obs with
+  | None -> "bad:sched-unreadable-observation"
+  | Some (ds, _, _) ->
+    let raws = List.filter_map (fun dstr -> match bytes_of_hex (List.hd (String.split_on_char ':' dstr)) with
+        | (b0 :: _) as raw when (int_of_n b0 / 32 = 3 || int_of_n b0 / 32 = 5) -> Some raw | _ -> None) ds in
+    let rows = registered_rows pre in
+    let answers r = List.filter (fun raw -> match ref_on_downlink e r.d_nwkskey r.d_appskey r.d_addr raw with Some _ -> true | None -> false) raws in
+    let acked r = List.for_all (fun raw -> match ref_on_downlink e r.d_nwkskey r.d_appskey r.d_addr raw with
+        | Some ((((_, ackbit), _), _), _) -> ackbit | None -> true) (answers r) in
+    if List.exists (fun r -> List.length (answers r) = 0) rows then "bad:window-confirmed-uplink-not-answered"
+    else if List.exists (fun r -> List.length (answers r) > 1) rows then "bad:window-uplink-answered-twice"
+    else if not (List.for_all acked rows) then "bad:window-confirmed-uplink-answered-without-ACK"
+    else "ok"
